@@ -12,7 +12,7 @@ def keep(o):
 
 def run(ck):
     engine.check_engine(ck, 'C01', actor.proj(keep_out=keep, keys=('starts',)),
-                        'script starts + Ok/Invalidated messages sent', fail_p=0.1)
+                        'script starts + Ok/Invalidated messages sent', fail_p=0.4)
 
 
 def replay(ck, path):
